@@ -78,6 +78,10 @@ def _score(**kw):
 MODEL['score_mean'] = (_score(function='mean'), 'sel')
 MODEL['score_sum0'] = (_score(function='sum', unscored='0'), 'sel')
 MODEL['score_median'] = (_score(function='median_low'), 'sel')
+for _fam, _q, _form in [('stv_gregory_hare', 'hare', 'selector'), ('stv_gregory_droop', 'droop', 'selector'),
+                        ('stv_dist_gregory_droop', 'droop', 'distributor')]:
+    MODEL[_fam] = (_simple('stv_eval', method='gregory', quota=_q, accept_equal=True, mandatory=False, step=-1, form=_form,
+                           prev=[], max=[]), 'dist' if _form == 'distributor' else 'sel')
 PROVED_FAMILIES = list(MODEL)
 # modelled (composition of the owners' models, correspondence checked here) but not yet proved order independent
 for _nm in ['kemeny_young', 'rankedpairs_winvotes', 'rankedpairs_margins', 'rankedpairs_pwo']:
